@@ -85,7 +85,7 @@ def variants(rng, case):
 
 def run(tier, seed, broken_proof=False):
     rng = random.Random(seed + 1212)
-    count = 40 if tier == "quick" else 400
+    count = 70 if tier == "quick" else 500
     violations = []
     strata = Counter()
     evals = 0
